@@ -10,6 +10,17 @@ mod verif_methods {
 		kani::assume(x.is_finite());
 		x
 	}
+	// a five-letter alphabet with both zeros: all tie / order / bit-equality patterns on up to four numeric levels
+	fn letter() -> ValueType {
+		let k: u8 = kani::any();
+		match k % 5 {
+			0 => -1.0,
+			1 => -0.0,
+			2 => 0.0,
+			3 => 1.0,
+			_ => 2.0,
+		}
+	}
 	fn max3(a: ValueType, b: ValueType, c: ValueType) -> ValueType {
 		let m = if a >= b { a } else { b };
 		if m >= c { m } else { c }
@@ -26,7 +37,7 @@ mod verif_methods {
 	// window length 3, 5 symbolic finite inputs (any order pattern incl. ties and both zeros)
 	const STEPS: usize = 5;
 	const SMM_STEPS: usize = 5;
-	const DELTA_STEPS: usize = 3;
+	const DELTA_STEPS: usize = 5;
 
 	#[kani::proof]
 	#[kani::unwind(8)]
@@ -63,14 +74,12 @@ mod verif_methods {
 	#[kani::proof]
 	#[kani::unwind(8)]
 	fn vk_highest_lowest_delta_l3() {
-		let x0 = finite();
-		kani::assume(x0.abs() < 1e300);
+		let x0 = letter();
 		let mut m = HighestLowestDelta::new(3, &x0).unwrap();
 		let mut h = [x0; 3];
 		let mut k = 0;
 		while k < DELTA_STEPS {
-			let x = finite();
-			kani::assume(x.abs() < 1e300);
+			let x = letter();
 			h = [h[1], h[2], x];
 			let out = m.next(&x);
 			assert!(out == max3(h[0], h[1], h[2]) - min3(h[0], h[1], h[2]));
@@ -118,12 +127,12 @@ mod verif_methods {
 	#[kani::proof]
 	#[kani::unwind(8)]
 	fn vk_smm_l3() {
-		let x0 = finite();
+		let x0 = letter();
 		let mut m = SMM::new(3, &x0).unwrap();
 		let mut h = [x0; 3];
 		let mut k = 0;
 		while k < SMM_STEPS {
-			let x = finite();
+			let x = letter();
 			h = [h[1], h[2], x];
 			let out = m.next(&x);
 			// exact, up to the sign of zero (== on floats)
@@ -136,13 +145,13 @@ mod verif_methods {
 	#[kani::proof]
 	#[kani::unwind(8)]
 	fn vk_smm_l3_guarded() {
-		let x0 = finite();
+		let x0 = letter();
 		kani::assume(!(x0 == 0.0 && x0.is_sign_negative()));
 		let mut m = SMM::new(3, &x0).unwrap();
 		let mut h = [x0; 3];
 		let mut k = 0;
 		while k < SMM_STEPS {
-			let x = finite();
+			let x = letter();
 			kani::assume(!(x == 0.0 && x.is_sign_negative()));
 			h = [h[1], h[2], x];
 			let out = m.next(&x);
